@@ -17,6 +17,11 @@ logger = logging.getLogger('IsoQuant')
 
 
 def merge_file_list(fname, label, chr_ids):
+    # per-chromosome files carry the chromosome name right after the sample prefix that starts the file name;
+    # the prefix may occur in the rest of the name as well (e.g. "counts", "linear", "t")
+    dir_name, base_name = os.path.split(fname)
+    if base_name.startswith(label):
+        return [os.path.join(dir_name, f"{label}_{chr_id}" + base_name[len(label):]) for chr_id in chr_ids]
     return [rreplace(fname, label, f"{label}_{chr_id}") for chr_id in chr_ids]
 
 
